@@ -5,7 +5,7 @@ CONSTANT AnnSeq <- Anns_bvv
 CONSTANT BVVSeq <- Reqs_bvv
 CONSTANT MaxAnn = 1
 CONSTANT MaxLive = 6
-CONSTANT MaxSteps = 5
+CONSTANT MaxSteps = 4
 CONSTANT Coded = TRUE
 INVARIANT Inj
 INVARIANT RefLive
